@@ -30,6 +30,16 @@ so entry * D is the integer numerator; deltas are integers), and the model netwo
 REAL code's stabilizer matrix (`cosets` op) and on the model's `Planar.stabilizers` (`tncoset` op, the statement of
 theorem `planar_tn_value`).  Theorems (Props/C10/Network.lean): `factor_graph_identity` (generic) and the planar
 instance; see that file for what is proved and what is only stated.
+
+Two further input classes live in helper modules run from `run` (protocol: cases(ctx), FAMILY, evaluate_input(meta)):
+`qv/c10_ybig.py` — the planar Y decoder on lattices up to 15x15 in every gcd regime, p from 1e-6 to 0.95 (coset
+probabilities down to below 1e-1000, every comparison RELATIVE), errors up to weight n/3 and errors confined to one
+boundary line (they reach every class of the residual look-up table), one decoder object for all of them, against an
+exact reference computed by Gaussian elimination over GF(2) (independent of the decoder) and, where cheap, against
+`planary decode / ystabs / ylogical` of Model/PlanarY.lean; `qv/c10_hist.py` — decoder-OBJECT histories: one instance
+of every TN decoder and mode reused over pairs of lattices with equal qubit count and transposed shapes, two
+distributions and the zero + low-weight syndromes, every answer compared with the exact `cosetProb` and with a fresh
+instance.
 """
 import importlib
 import json
@@ -54,7 +64,7 @@ RULE = ('codes: planar RxC, rotated planar RxC, colour 6.6.6 with stabilizer gro
         'ones (thorough: + 1 or 0)) under >= 1 strong-noise distribution (p >= 0.5, the first with a non-identity '
         'Pauli most likely: the exact arg-max coset of the zero syndrome is then a logical coset on most codes, '
         'histogram zero_syndrome_argmax) and one weak one; Y decoder: no-error and every single-Y-error syndrome '
-        '(n > 14: two), also at p >= 0.5; decoders x modes c/r/a x stp None/0.5/1.0, chi=tol=None; one case = one '
+        '(n > 14, quick n > 13: two), also at p >= 0.5; decoders x modes c/r/a x stp None/0.5/1.0, chi=tol=None; one case = one '
         '(code, syndrome, distribution) with the group of real decoder configurations run on it; a case passes iff '
         'every recorded coset probability is within rel 1e-11 of the exact Lean rational, the four recoveries carry '
         'the syndrome and lie in four distinct logical cosets, and decode returns the exact arg-max class when the '
@@ -63,7 +73,19 @@ RULE = ('codes: planar RxC, rotated planar RxC, colour 6.6.6 with stabilizer gro
         'with its X/Y/Z logical variants, distributions as above: every tensor of TNC.create_tn equals the model '
         'planarTn entry-wise (exact integers over D), and the model network exact contraction equals the exact '
         'cosetProb (driver, real and model stabilizers) or, above 2^17 group elements, the real float contraction '
-        'within rel 1e-11')
+        'within rel 1e-11; Y decoder, large: planar RxC, 2 <= R, C <= 15, all gcd regimes (quick: 6x9 9x6 8x10 8x12 '
+        '10x15 4x5 14x15 + 8 seed-rotated shapes), Y-only errors none / weight 1..4 / density 0.05..0.2 / weight up to '
+        'n/3 / subsets of one boundary line (all subsets of a line of <= 6 edges on shapes with a look-up table), '
+        'p in {1e-6 .. 0.95, 2^-20, 2^-10, 2^-4, 1/4} as raw BitPhaseFlip floats, one PlanarYDecoder object for all '
+        'inputs in shuffled order, inputs with both cosets < 1e-60 decoded three times; passes iff the result is '
+        'Y-only with the syndrome, the two evaluated cosets are exactly the two classes of e + ker(A) over GF(2), '
+        'their probabilities are within rel 1e-11 of the exact sums and the class is the exact arg-max when the '
+        'exact relative gap > 1e-9; histories: per family one recipe per pair of equal-qubit-count transposed '
+        'lattices (planar 2x3/3x2 2x4/4x2 2x5/5x2, rotated 3x4/4x3 3x5/5x3, colour 3) = every combination of '
+        '{lattice A, B} x {weak, strong distribution} x {zero, weight-1..2-error syndrome} in shuffled order + 3 '
+        'repeats, run on ONE object per decoder configuration (quick: 6 of the 18 planar ones per pair, rotating); a '
+        'step passes iff the single-call predicate holds against the exact value and the answer equals a fresh '
+        'object\'s')
 
 REL_TOL = Fraction(1, 10 ** 11)
 GAP_TOL = Fraction(1, 10 ** 9)
@@ -733,11 +755,12 @@ def y_cases(ctx):
         else:
             errs = [[0] * n] + [[int(rng.random() < rng.choice([0.1, 0.3, 0.5])) for _ in range(n)]
                                 for _ in range(n_syn - 1)]
-        # the cheapest inputs to special-case — no error and every single-qubit Y error (n > 14: two of them) — are
+        # the cheapest inputs to special-case — no error and every single-qubit Y error (n > 14, quick n > 13: two of them;
+        # qv/c10_ybig.py runs weight-1..4 errors on every one of its lattices against the GF(2) reference) — are
         # always there, and are run once more under strong noise (p >= 1/2: the all-Y operator beats the identity)
         single = [[int(i == j) for j in range(n)] for i in range(n)]
         special = sorted({tuple(int(x) for x in pt.bsp(np.array(e + e), code.stabilizers.T))
-                          for e in [[0] * n] + (single if n <= 14 else rng.sample(single, 2))})
+                          for e in [[0] * n] + (single if n <= (13 if ctx.quick() else 14) else rng.sample(single, 2))})
         syns = sorted({tuple(int(x) for x in pt.bsp(np.array(e + e), code.stabilizers.T)) for e in errs}
                       | set(special))
         for j in range(n_dist + 1):
